@@ -5,9 +5,10 @@
    rolls the replay record back (RspSendFailed). *)
 From Coq Require Import List NArith ZArith Bool String.
 From RecordUpdate Require Import RecordSet.
+From MV Require Import FdModel RetryMsgIO.   (* first: ReplayModel.run etc. must shadow FdModel's names *)
 From MV Require Import Bytes CredModel CredProofs RetryModel RetryProofs.
 From MV Require Import ReplayModel RetryReplay RetryClientModel RetryClientProofs RetryWire.
-From MV.gen Require Import GenCred GenRetryLoop.
+From MV.gen Require Import GenCred GenRetryLoop GenRetryMsgIO.
 Import ListNotations.
 Local Open Scope N_scope.
 
@@ -214,6 +215,60 @@ Proof. exact (wire_faults_masked hmac sha1 blk_dec zdecomp). Qed.
 End C13wire.
 Print Assumptions C13_wire_faults_masked.
 Local Open Scope N_scope.
+
+(* ---------------------------------------------------------------------------------------------------------------
+   What munged and libmunge take for "sent" and "received".  dec_process_msg rolls the replay record back exactly when
+   m_msg_send does not return success, and the client retries exactly when m_msg_send / m_msg_recv do not; both look at
+   (count or -1, errno) of fd_timed_write_iov / fd_timed_read_n.  FdModel gives these two for EVERY kernel behaviour
+   (any script of poll() and read()/writev() outcomes: short transfers at any byte, EINTR/EAGAIN, POLLHUP, POLLERR,
+   end of file, a passed deadline).  The tests applied to them are translated from the text of m_msg.c on this run
+   (gen/GenRetryMsgIO.v); send_accepted / recv_*_accepted are those tests on the model's outcome.
+   --------------------------------------------------------------------------------------------------------------- *)
+Local Open Scope Z_scope.
+
+(* a reply (or request) that m_msg_send reports as sent has reached the peer completely: header ++ body, in order,
+   nothing else - so a reply that broke at ANY byte, with or without an errno, is reported as not sent *)
+Theorem C13_send_accepted_is_delivered : forall bufs oom when skip t0 ps ios,
+  send_accepted (fd_timed_write_iov bufs oom when skip t0 ps ios) (List.length (List.concat bufs)) = true ->
+  wv_out (r_x (fd_timed_write_iov bufs oom when skip t0 ps ios)) = List.concat bufs.
+Proof. exact send_accepted_is_delivered. Qed.
+
+(* ... and a message that did reach the peer completely before the deadline is reported as sent *)
+Theorem C13_send_delivered_is_accepted : forall bufs when skip t0 ps ios, bufs <> [] ->
+  wv_out (r_x (fd_timed_write_iov bufs false when skip t0 ps ios)) = List.concat bufs ->
+  errno_of (fd_timed_write_iov bufs false when skip t0 ps ios) <> ETIMEDOUT ->
+  send_accepted (fd_timed_write_iov bufs false when skip t0 ps ios) (List.length (List.concat bufs)) = true.
+Proof. exact send_delivered_is_accepted. Qed.
+
+(* the comparison of the count with the length is what sees a hang-up in the middle: a kernel script under which
+   fd_timed_write_iov returns a short count and leaves errno alone (POLLHUP while waiting for buffer space) *)
+Theorem C13_short_count_without_errno : exists bufs ps ios,
+  let r := fd_timed_write_iov bufs false (Some (100, 0)) true 0 ps ios in
+  r_rc r = Ret 1 /\ errno_of r = E0 /\ wv_out (r_x r) <> List.concat bufs /\
+  send_accepted r (List.length (List.concat bufs)) = false.
+Proof. exact short_count_without_errno. Qed.
+
+(* a message m_msg_recv accepts (header test, then body test on what the socket still holds) is exactly the first
+   hn + bn bytes the peer sent: never a partial reply *)
+Theorem C13_recv_accepted_is_complete : forall hn bn sent when sk1 sk2 t0 t1 ps1 ios1 ps2 ios2,
+  let r1 := fd_timed_read_n hn sent when sk1 t0 ps1 ios1 in
+  let r2 := fd_timed_read_n bn (rd_peer (r_x r1)) when sk2 t1 ps2 ios2 in
+  recv_hdr_accepted r1 hn = true -> recv_body_accepted r2 bn = true ->
+  rd_buf (r_x r1) ++ rd_buf (r_x r2) = firstn (hn + bn) sent /\ (hn + bn <= List.length sent)%nat.
+Proof. exact recv_accepted_is_complete. Qed.
+
+Theorem C13_recv_complete_is_accepted : forall n sent when skip t0 ps ios,
+  r_rc (fd_timed_read_n n sent when skip t0 ps ios) = Ret n ->
+  errno_of (fd_timed_read_n n sent when skip t0 ps ios) <> ETIMEDOUT ->
+  recv_hdr_accepted (fd_timed_read_n n sent when skip t0 ps ios) n = true /\
+  recv_body_accepted (fd_timed_read_n n sent when skip t0 ps ios) n = true.
+Proof. exact recv_complete_is_accepted. Qed.
+Print Assumptions C13_send_accepted_is_delivered.
+Print Assumptions C13_send_delivered_is_accepted.
+Print Assumptions C13_short_count_without_errno.
+Print Assumptions C13_recv_accepted_is_complete.
+Print Assumptions C13_recv_complete_is_accepted.
+Local Close Scope Z_scope.
 
 (* non-vacuity (computed inside Coq with toy primitives): lost reply, failed send, cut request, lost reply, then a
    clean attempt -> success with the payload and exactly one record; five faults -> socket error *)
